@@ -20,6 +20,14 @@ Integer raw values are `Int`s constrained to the width of the array (`IW`). Sinc
 integer `+ - * / %` and unary `-` go through `try_binary_op` / `try_unary_op`: computed on valid
 slots only, `checked_*`, overflow = `Err` (before: on every raw slot, panicking in debug).
 
+Representation invariant assumed by the model: an array IS its list of slots, i.e. the validity
+`BitVec` is word-aligned at bit 0 (head offset 0) and has one bit per raw slot. The word-wise
+`BitVecExt::{and, or, not_then_and}` and `clear_null` rely on it; every constructor in src/array
+(builders, `collect`, `from_data` with a fresh bitmap, `filter`, `slice`) must establish it. The
+model has no notion of a head offset; the correspondence run therefore also feeds the kernels
+arrays obtained by `slice(off..off+n)` with `off % 64 ≠ 0` and expressions above LIMIT/OFFSET
+(requests `ks` / `el`).
+
 Core Lean only (the driver links as `lean_exe`).
 -/
 namespace RlModel
